@@ -35,6 +35,9 @@ def one(e, base):
     elif e.get('generator') == 'swap-eq':
         from swap_eq import main as swap
         swap(d)
+    elif e.get('generator') == 'swap-rel':
+        from swap_rel import main as swaprel
+        swaprel(d)
     elif e.get('generator') == 'insert-noops':
         from insert_noops import main as noops
         noops(d)
